@@ -13,4 +13,5 @@ var vEntries = map[string]interface{}{
 	"VTwoReplicas": VTwoReplicas,
 	"VTransfer": VTransfer,
 	"VCycleExplore": VCycleExplore,
+	"VLoop": VLoop,
 }
